@@ -142,7 +142,9 @@ class SpecProblem(Problem):
         kw = {}
         if spec.m > 0:
             kw = dict(cons_lb=np.copy(spec.cons_lb), cons_ub=np.copy(spec.cons_ub))
-        super().__init__(np.copy(spec.var_lb), np.copy(spec.var_ub), **kw)
+        # the arrays the "caller" hands over (kept so that monitors can snapshot them)
+        self.given = dict(var_lb=np.copy(spec.var_lb), var_ub=np.copy(spec.var_ub), **kw)
+        super().__init__(self.given["var_lb"], self.given["var_ub"], **kw)
 
     # raw evaluations -----------------------------------------------------------
     def _obj(self, x):
